@@ -18,6 +18,7 @@ import ClarabelProofs.Lemmas.NonsymGenPowScaling
 import ClarabelProofs.Lemmas.NonsymExpStart
 import ClarabelProofs.Lemmas.NonsymGenPowNewton
 import ClarabelProofs.Lemmas.ConesGenPowConvex
+import ClarabelProofs.Lemmas.NonsymExpWrightArg
 
 namespace Clarabel.C14
 open Clarabel
@@ -1183,5 +1184,57 @@ example : GenPow.isDualFeasible (#[1 / 2, 1 / 2] : Array ℝ) #[1, 1, 1] = .ok t
   · exact (genpow_membership [1 / 2, 1 / 2] [1, 1] [0] rfl
       (by intro a ha; simp at ha; subst ha; norm_num)).1.mpr
       ⟨by simp, by norm_num⟩
+
+/-! ## The range check of `_wright_omega` is unreachable at accepted points (over ℝ) -/
+
+/-- [R] `C14.exp_wright_argument_pos`: at every point `s` the code's own test
+`ExponentialCone::is_primal_feasible` accepts (`s₂ > 0`, `s₁ > 0`, `s₁·log(s₂/s₁) − s₀ > 0`, 0-based)
+the argument `1 − s₀/s₁ − log(s₁/s₂)` that `gradient_primal` and `barrier_primal` hand to
+`_wright_omega` is `> 1` — it equals `1 + (s₁·log(s₂/s₁) − s₀)/s₁`, one plus the tested residual
+over `s₁` —, so the `panic!("argument not in supported range")` (`z < 0`) is unreachable from both
+call sites: `_wright_omega` returns some `ω`, `gradient_primal` returns the gradient built from it
+and `barrier_primal` returns. -/
+theorem exp_wright_argument_pos {s0 s1 s2 : ℝ} (h : Exp.isPrimalFeasible s0 s1 s2 = true) :
+    1 < Exp.omegaArg s0 s1 s2 ∧
+    Exp.omegaArg s0 s1 s2 = 1 + (s1 * Real.log (s2 / s1) - s0) / s1 ∧
+    (∃ w, Exp.wrightOmega (Exp.omegaArg s0 s1 s2) = .ok w ∧
+      Exp.gradientPrimal (s0, s1, s2) = .ok (Exp.gradientPrimalOf w s0 s1 s2)) ∧
+    (∃ b, Exp.barrierPrimal (s0, s1, s2) = .ok b) := by
+  obtain ⟨h1, h2, _⟩ := Exp.isPrimalFeasible_real h
+  exact ⟨Exp.omegaArg_gt_one_of_feasible h, Exp.omegaArg_eq_residual h1 h2,
+    Exp.gradientPrimal_ok_of_feasible (s := (s0, s1, s2)) h,
+    Exp.barrierPrimal_ok_of_feasible (s := (s0, s1, s2)) h⟩
+
+/-- non-vacuity: `(0, 1, 2)` passes `is_primal_feasible` -/
+example : Exp.isPrimalFeasible (0 : ℝ) 1 2 = true :=
+  (exp_isPrimalFeasible_iff 0 1 2).mpr ⟨by norm_num, by norm_num, by simp⟩
+
+/-- [R] `C14.exp_wright_panic_only_rejected` (contrapositive form): whenever `gradient_primal(s)` or
+`barrier_primal(s)` panics — at whatever site —, `s` is a point `is_primal_feasible` rejects. -/
+theorem exp_wright_panic_only_rejected (s : V3 ℝ) (site : String)
+    (h : Exp.gradientPrimal s = .error (.panic site) ∨ Exp.barrierPrimal s = .error (.panic site)) :
+    Exp.isPrimalFeasible s.1 s.2.1 s.2.2 = false :=
+  h.elim Exp.gradientPrimal_panic_rejected Exp.barrierPrimal_panic_rejected
+
+/-- non-vacuity: at `(2, 1, 1)` (rejected: `1·log 1 − 2 < 0`) the argument is `−1` and both functions
+do panic -/
+example : Exp.gradientPrimal ((2 : ℝ), (1 : ℝ), (1 : ℝ)) = .error (.panic "argument not in supported range") := by
+  have hz : Exp.omegaArg (2 : ℝ) 1 1 < 0 := by
+    unfold Exp.omegaArg
+    rw [Nonsym.logsafe_of_pos (by norm_num)]
+    norm_num
+  unfold Exp.gradientPrimal
+  rw [Exp.wrightOmega_neg hz]
+  rfl
+
+/-- [R] `C14.exp_cone_calls_return`: the two cone-level callers.  `update_scaling(s, z, μ, strategy)`
+returns when the strategy is `Dual` (no Wright-omega call) or `s` passes `is_primal_feasible`;
+`compute_barrier(z, s, dz, ds, α)` returns when the candidate `s + α·ds` passes it. -/
+theorem exp_cone_calls_return (z s dz ds : V3 ℝ) (mu a : ℝ) (dual : Bool) :
+    ((dual = true ∨ Exp.isPrimalFeasible s.1 s.2.1 s.2.2 = true) →
+      ∃ K, Exp.updateScaling s z mu dual = .ok K) ∧
+    (Exp.isPrimalFeasible (s.1 + a * ds.1) (s.2.1 + a * ds.2.1) (s.2.2 + a * ds.2.2) = true →
+      ∃ b, Exp.computeBarrier z s dz ds a = .ok b) :=
+  ⟨Exp.updateScaling_ok_of_feasible s z mu dual, Exp.computeBarrier_ok_of_feasible z s dz ds a⟩
 
 end Clarabel.C14
